@@ -522,6 +522,17 @@ Proof.
       eapply IH; eassumption.
 Qed.
 
+Lemma depth_bound g n k : WF g -> listed g k -> walk g n k = Some 0 -> n <= length (g_objs g).
+Proof.
+  intros W L Hn.
+  assert (R0 : parent g 0 = None).
+  { destruct (wf_rootobj _ _ W) as [_ [r [H1 [H2 _]]]]. unfold parent. rewrite H1. exact H2. }
+  pose proof (chain_nodup g R0 n k Hn) as ND.
+  pose proof (chain_nodes g W n k 0 (or_intror L) Hn) as INC.
+  pose proof (NoDup_incl_length ND INC) as LE.
+  rewrite (chain_length g n k 0 Hn) in LE. simpl in LE. lia.
+Qed.
+
 Lemma wf_check_complete g : WF g -> wf_check lower g = true.
 Proof.
   intro W. unfold wf_check.
